@@ -740,9 +740,43 @@ def _subvalues(j, acc):
                 _subvalues(v, acc)
 
 
-def _real_conversions(case) -> list:
+PRIM_VALIDATORS = {"regex", "decimal_places", "max_digits", "lax_decimal_places", "lax_max_digits", "length", "max_length",
+                   "min_length", "lax_length", "lax_max_length"}
+
+
+def _prim_classes(t, acc):
+    """classes whose converted values reach a validator that consults a CPython builtin (`str(float)`, `Decimal(str(x))`,
+    `round`, `re.fullmatch`)"""
+    if isinstance(t, dict):
+        if "rule" in t:
+            r = t["rule"]
+            names = {n for n, _ in r["vs"]}
+            o = r["origin"]
+            if names & PRIM_VALIDATORS:
+                if isinstance(o, dict) and "cls" in o:
+                    if o["cls"] in ("float", "Decimal", "int", "str", "bool") and ("regex" in names or o["cls"] in ("float", "Decimal")):
+                        acc.add({"float": float, "Decimal": Decimal, "int": int, "str": str, "bool": int}[o["cls"]])
+                else:
+                    acc.update((float, Decimal, str))
+            if o is not None:
+                _prim_classes(o, acc)
+            for a in r["args"]:
+                _prim_classes(a, acc)
+        elif "comb" in t:
+            for a in t["args"]:
+                _prim_classes(a, acc)
+
+
+def _real_conversions(case, io) -> list:
     """what the real converters make of every sub-value of the input for the scalar classes validators see (so that the
     Py-prim tables hold the floats / Decimals / texts that reach a validator after a conversion)"""
+    classes = set()
+    _prim_classes(io.get("tree"), classes)
+    for d in (io.get("env") or {}).get("datas", []):
+        for f in d["fields"]:
+            _prim_classes(f["ty"], classes)
+    if not classes:
+        return []
     if str(REPO) not in sys.path:
         sys.path.insert(0, str(REPO))
     try:
@@ -755,12 +789,12 @@ def _real_conversions(case) -> list:
     out = []
     o = case.get("opts") or {}
     flagsets = {(False, False), (bool(o.get("nec")), bool(o.get("ndl"))), (True, True), (False, True)}
-    for j in subs[:40]:
+    for j in subs[:16]:
         try:
             x = c12.dec(j, envc)
         except Exception:
             continue
-        for cls in (float, Decimal, int, str):
+        for cls in classes:
             for nec, ndl in flagsets:
                 try:
                     y = type_transform(x, cls, options=Options(no_explicit_cast=nec, no_data_loss=ndl))
@@ -792,7 +826,7 @@ def pyprims_for(case, io) -> dict:
             _walk_json_values(io[k]["ok"], vals)
     for _, b in cons:
         vals += list(pyval.walk(b))
-    vals += _real_conversions(case)
+    vals += _real_conversions(case, io)
     more = []
     for x in list(vals):
         if isinstance(x, str):
